@@ -37,6 +37,7 @@ use syn::*;
 mod t6w;
 mod t6r;
 mod t6r2;
+mod t6w2;
 
 const FEATURES: &[&str] = &["aes-crypto", "bzip2", "deflate", "time", "zstd"];
 
@@ -188,6 +189,8 @@ struct Tr<'a> {
     skip_tuple: bool,
     /// S mode (t6w.rs): aliases of parts of `self`
     s: t6w::SState,
+    /// helper t6w2 (t6w2.rs): byte-function vocabulary switched on
+    w2: t6w2::W2State,
     /// READ mode: the reader is an owned parameter (`mut reader: R`), callees get `&mut reader`
     reader_owned: bool,
     /// READ mode (t6r.rs): the function records `cell.store(v)` effects; name of the list variable
@@ -304,7 +307,7 @@ impl<'r, 'ast> syn::visit::Visit<'ast> for AssignedVars<'r> {
     }
     fn visit_expr_method_call(&mut self, m: &'ast ExprMethodCall) {
         let name = m.method.to_string();
-        let mutating = name.starts_with("read_") || name == "push" || name == "insert"
+        let mutating = name.starts_with("read_") || name == "push" || name == "insert" || name == "extend_from_slice"
             || self.reg.methods.iter().any(|(k, i)| k.ends_with(&format!("::{name}")) && i.mut_self && i.fi.mode != Mode::S);
         if mutating {
             if let Some(n) = path_ident(&m.receiver) {
@@ -501,6 +504,7 @@ impl<'a> Tr<'a> {
             nontail_sub: 0,
             skip_tuple: false,
             s: t6w::SState::default(),
+            w2: t6w2::W2State::default(),
             reader_owned: false,
             rstores: None,
             uses_ext: false,
@@ -538,6 +542,9 @@ impl<'a> Tr<'a> {
 
     /// Light type synthesis: the Lean type of a Rust expression when it is evident, else `None`.
     fn type_of(&self, e: &Expr) -> Option<String> {
+        if let Some(t) = self.w2_type_of(e) {
+            return Some(t);
+        }
         if let Some(t) = self.t6r_type_of(e) {
             return Some(t);
         }
@@ -814,6 +821,11 @@ impl<'a> Tr<'a> {
         let tail = std::mem::take(&mut self.tail);
         if self.mode == Mode::S {
             if let Some(v) = self.s_expr(e, &exp, tail)? {
+                return Ok(v);
+            }
+        }
+        if self.w2.active {
+            if let Some(v) = self.w2_expr(e, &exp)? {
                 return Ok(v);
             }
         }
@@ -2437,6 +2449,9 @@ impl<'a> Tr<'a> {
                 if t.is_none() {
                     t = self.coll_local_type(&name, &init.expr);
                 }
+                if t.is_none() {
+                    t = self.w2_local_type(&name, &init.expr);
+                }
                 if t.is_none() && untyped_int_lit(&init.expr) {
                     let rest = self.rest.clone();
                     let mut v = FirstTypedUse { tr: self, name: name.clone(), found: None };
@@ -2868,9 +2883,15 @@ impl<'a> Tr<'a> {
         let fuel = match &*w.cond {
             Expr::Binary(b) if matches!(b.op, BinOp::Ge(_) | BinOp::Gt(_) | BinOp::Le(_) | BinOp::Lt(_)) => {
                 let ok = |t: Option<String>| t.map(|t| t == "UInt64" || t == "UInt32" || t == "UInt16").unwrap_or(false);
-                if ok(self.type_of(&b.left)) && ok(self.type_of(&b.right)) {
+                // an unsuffixed literal has the type of the other side
+                let (mut lt, mut rt) = (self.type_of(&b.left), self.type_of(&b.right));
+                if lt.is_none() && untyped_int_lit(&b.left) { lt = rt.clone(); }
+                if rt.is_none() && untyped_int_lit(&b.right) { rt = lt.clone(); }
+                if ok(lt.clone()) && ok(rt.clone()) {
                     let mark = self.lines.len();
+                    self.expect = lt;
                     let l = self.expr(&b.left)?;
+                    self.expect = rt;
                     let r = self.expr(&b.right)?;
                     if self.lines.len() != mark {
                         self.lines.truncate(mark);
@@ -3722,6 +3743,7 @@ fn main() {
                         reg.methods.insert(name.clone(), mi);
                     }
                 }
+                "tfn" => t6w2::register_tfn(&reg, &all, name),
                 "struct" | "sstruct" => {
                     for it in &all {
                         if let Item::Struct(st) = it {
@@ -3892,6 +3914,7 @@ fn main() {
                         Err("not found".into())
                     }
                     "sfn" => t6w::translate_sfn(&reg, &failed, &all, name),
+                    "tfn" => t6w2::translate_tfn(&reg, &failed, &all, name),
                     "struct" | "sstruct" => {
                         for it in &all {
                             if let Item::Struct(st) = it {
@@ -4040,6 +4063,9 @@ fn main() {
         }
         if fo.body.contains("Rs.S.") {
             writeln!(text, "import ZipVerif.Basic.RsS").unwrap();
+        }
+        if fo.body.contains("Rs.B.") {
+            writeln!(text, "import ZipVerif.Basic.RsB").unwrap();
         }
         if fo.body.contains("Rs.Vec") || fo.body.contains("Rs.HashMap") || fo.body.contains("Rs.R.forRange") || fo.body.contains("Rs.Arc") || fo.body.contains("Rs.Take") || fo.body.contains("Rs.Stores") || fo.body.contains("Rs.ReadExt") || fo.body.contains("Rs.InvalidPassword") {
             writeln!(text, "import ZipVerif.Basic.RsGlue").unwrap();
